@@ -26,7 +26,8 @@ template <class L> class LabeledFamily : public IAlgoFamily {
     std::string name() const override { return std::string("Labeled*Graph<") + Codec<L>::name + ">"; }
     bool handles(const std::string &k) const override {
         return k == "reverse" || k == "todirected" || k == "toundirected" || k == "edgelist" || k == "subgraphD" ||
-               k == "subgraphU" || k == "search" || k == "reject" || k == "iter" || k == "big_conv";
+               k == "subgraphU" || k == "search" || k == "reject" || k == "iter" || k == "big_conv" ||
+               (k == "iter_scale" && nolabel);
     }
 
     CaseResult run(const json &c, unsigned seed) override {
@@ -66,6 +67,11 @@ template <class L> class LabeledFamily : public IAlgoFamily {
                 iterate<DG>(c, r);
             else
                 iterate<UG>(c, r);
+        }
+        if (k == "iter_scale") {
+            iterateScale<DG>(c, r);
+            if (r.ok)
+                iterateScale<UG>(c, r);
         }
         return r;
     }
@@ -196,11 +202,13 @@ template <class L> class LabeledFamily : public IAlgoFamily {
                 r.records.push_back({{"k", "conv_toundirected"}, {"family", fam}, {"g", encOf(d)}, {"out", encOf(uu)},
                                      {"labeled", !nolabel}});
             }
-            for (int dir = 0; dir < 2; ++dir) {
+            // subsets of three densities: about half, few (|S| << n), nearly all of the vertices
+            for (int dd = 0; dd < 6; ++dd) {
+                const int dir = dd % 2, dens = dd / 2;
                 std::unordered_set<VertexIndex> S;
                 json Sj = json::array();
                 for (VertexIndex v = 0; v < n; ++v)
-                    if (rng() % 2) {
+                    if (dens == 0 ? rng() % 2 : dens == 1 ? rng() % 16 == 0 : rng() % 16 != 0) {
                         S.insert(v);
                         Sj.push_back(v);
                     }
@@ -276,6 +284,60 @@ template <class L> class LabeledFamily : public IAlgoFamily {
     }
 
     // C08: the real edge traversal against the sequence EdgeIter.tla yields for the same shape
+    // C08 "every size from 0 up": shapes with a few hundred thousand vertices (a hub whose
+    // neighbours all point back to it, long runs of isolated vertices, a path) - the traversal may
+    // not depend on the length of a run of skipped entries or of empty lists
+    template <class G> void iterateScale(const json &c, CaseResult &r) {
+        const size_t n = c.at("n").get<size_t>();
+        const std::string shape = c.at("shape");
+        G g(n);
+        auto add = [&](VertexIndex a, VertexIndex b) { g.addEdge(a, b, true); };   // distinct pairs: no duplicate arises
+        if (shape == "star")
+            for (VertexIndex v = 1; v < n; ++v)
+                add(0, v);
+        else if (shape == "instar")
+            for (VertexIndex v = 1; v < n; ++v)
+                add(v, 0);
+        else if (shape == "revstar")
+            for (VertexIndex v = 0; v + 1 < n; ++v)
+                add((VertexIndex)(n - 1), v);
+        else if (shape == "path")
+            for (VertexIndex v = 0; v + 1 < n; ++v)
+                add(v + 1, v);
+        else if (shape == "gaps") {                       // edges at both ends, isolated vertices between
+            add(0, 1);
+            add((VertexIndex)(n - 1), (VertexIndex)(n - 2));
+            add((VertexIndex)(n / 2), (VertexIndex)(n / 2));
+        }
+        std::vector<std::pair<VertexIndex, VertexIndex>> flat, s1;
+        for (VertexIndex v = 0; v < n; ++v)
+            for (VertexIndex w : g.getOutNeighbours(v))
+                if (GInfo<G>::directed || v <= w)
+                    flat.push_back({v, w});
+        size_t post = 0;
+        try {
+            for (auto e : g.edges())
+                s1.push_back(e);
+            auto ed = g.edges();
+            for (auto it = ed.begin(); it != ed.end(); it++)
+                ++post;
+        } catch (const std::exception &e) {
+            return r.fail(std::string("edge traversal threw: ") + e.what());
+        }
+        if (s1 != flat || post != flat.size() || flat.size() != g.getEdgeNumber())
+            return r.fail("edges() on the " + shape + " shape with " + std::to_string(n) + " vertices yields " +
+                          std::to_string(s1.size()) + " / " + std::to_string(post) + " edges, the lists hold " +
+                          std::to_string(flat.size()) + ", getEdgeNumber() = " + std::to_string(g.getEdgeNumber()));
+        size_t k = 0;
+        for (VertexIndex v : g) {
+            if (v != k)
+                return r.fail("vertex iteration out of order");
+            ++k;
+        }
+        if (k != n)
+            return r.fail("vertex iteration count");
+    }
+
     template <class G> void iterate(const json &c, CaseResult &r) {
         const size_t n = c.at("n").get<size_t>();
         G g(n);
@@ -389,6 +451,69 @@ template <class L> class LabeledFamily : public IAlgoFamily {
             mp.push_back({kv.first, kv.second});
         r.records.push_back({{"k", "remap"}, {"dir", GInfo<G>::directed}, {"g", c.at("g")}, {"S", c.at("S")},
                              {"h", encOf(pr.first)}, {"map", mp}, {"family", name()}});
+        // the result of a pure function does not depend on how often it has been called before:
+        // c.repeat further calls in this thread, over changing subsets, each compared with the
+        // first result for the same subset (8/16-bit call counters, epoch stamps, caches)
+        if (c.contains("repeat")) {
+            std::vector<std::unordered_set<VertexIndex>> subsets(4);
+            subsets[0] = S;
+            for (VertexIndex v = 0; v < g.getSize(); ++v) {
+                if (!S.count(v))
+                    subsets[1].insert(v);
+                subsets[3].insert(v);
+            }
+            std::vector<json> firstRemap(4);
+            auto remapDigest = [&](const std::unordered_set<VertexIndex> &T) {
+                auto q = algorithms::getSubgraphWithRemap(g, T);
+                // relabel back through the map so that the digest does not depend on the numbering
+                std::vector<VertexIndex> inv(q.first.getSize(), 0);
+                for (auto &kv : q.second)
+                    if (kv.second < inv.size())
+                        inv[kv.second] = kv.first;
+                json es = json::array();
+                for (auto e : q.first.edges()) {
+                    VertexIndex a = inv[e.first], b = inv[e.second];
+                    if (!GInfo<G>::directed && a > b)
+                        std::swap(a, b);
+                    es.push_back({a, b});
+                }
+                std::sort(es.begin(), es.end());
+                return json{{"n", q.first.getSize()}, {"en", q.first.getEdgeNumber()}, {"keys", q.second.size()}, {"edges", es}};
+            };
+            const size_t times = c.at("repeat").get<size_t>();
+            auto same = [](const G &x, const G &y) {
+                if (x.getSize() != y.getSize() || x.getEdgeNumber() != y.getEdgeNumber())
+                    return false;
+                for (VertexIndex v = 0; v < x.getSize(); ++v) {
+                    if (x.getOutNeighbours(v) != y.getOutNeighbours(v))
+                        return false;
+                    for (VertexIndex w : x.getOutNeighbours(v))
+                        if (!(x.getEdgeLabel(v, w) == y.getEdgeLabel(v, w)))
+                            return false;
+                }
+                return true;
+            };
+            std::vector<G> firstG;
+            for (size_t it = 0; it < times; ++it) {
+                // the four subsets once, then the case's own subset again and again (whatever the
+                // earlier calls left behind for the other vertices stays untouched for 2^16 calls), the
+                // empty subset now and then
+                const size_t w = it < 4 ? it : (it % 1024 == 5 ? 2 : 0);
+                G e = algorithms::getSubgraph(g, subsets[w]);
+                if (it < 4)
+                    firstG.push_back(e);
+                else if (!same(e, firstG[w]))
+                    return r.fail("getSubgraph: call number " + std::to_string(it + 2) + " on the same graph and subset returns "
+                                  "another graph than the first: " + diffNote(encOf(firstG[w]), encOf(e)));
+                if (it % 64 == 7 || it < 4) {
+                    json q = remapDigest(subsets[w]);
+                    if (firstRemap[w].is_null())
+                        firstRemap[w] = q;
+                    else if (q != firstRemap[w])
+                        return r.fail("getSubgraphWithRemap: a later call on the same graph and subset differs from the first");
+                }
+            }
+        }
     }
 
     template <class C> static json pathsJson(const C &paths) {
